@@ -65,8 +65,11 @@ func exec(c px.Context, op string, args []sx.Sexp) core.Result {
 		a, b, v := r.A[0].Ty, r.A[1].Ty, r.V[0]
 		asg, instB, instA := r.B[0], r.B[1], r.B[2]
 		nt := asg && instB
-		if lat.UnitUnsafe(a) || lat.UnitUnsafe(b) {
-			return r.Result("n/a", nt) // the property excludes Unit (two-way assignable by definition)
+		if lat.UnitUnsafe(a) || lat.UnitUnsafe(b) ||
+			lat.ValContains(v, func(x lat.Val) bool { return x.K == "t" && x.T != nil && lat.UnitUnsafe(*x.T) }) {
+			// the property excludes Unit (two-way assignable by definition) - also inside a type VALUE held by v, where it meets
+			// Type[..] (an instance of Type[B] is a type B accepts: C01_sound_type_receiver asks the same of Val.TyOK)
+			return r.Result("n/a", nt)
 		}
 		if asg && instB && !instA {
 			return r.Result("FAIL "+unsoundClass(a, b, v)+" B is assignable to A, V is an instance of B but not of A", true)
